@@ -83,4 +83,53 @@ theorem C16_fast_probe (G : GenLayer) (cfg : Config) (st : State) (pgn prio src 
   have _ := hne; have _ := hnc   -- not needed: no frame before the last reaches the per-PGN decoder
   exact fast_probe_aux G cfg st pgn prio src dst seq w P hf hs hP h0
 
+/-! ### the whole-history form: rejected and ignored inputs can be removed from a history -/
+
+/-- **What is returned never depends on the dump log**, and neither do the parts of the state a later result depends on -/
+theorem C16_step_sim (G : GenLayer) (cfg : Config) (s1 s2 : State) (i : Input) (h : Sim s1 s2) :
+    (step G cfg s1 i).2 = (step G cfg s2 i).2 ∧ Sim (step G cfg s1 i).1 (step G cfg s2 i).1 :=
+  step_sim G cfg s1 s2 i h
+
+/-- **Rejected and ignored inputs never change what is returned later** (the statement's second sentence, for whole histories): remove
+from ANY history any set of inputs that were rejected or ignored where they stood, start from any state with the same table and source
+map (e.g. a different dump log) — the decoder returns, at every remaining position, exactly what it returned in the full history -/
+theorem C16_garbage_removal (G : GenLayer) (cfg : Config) (st st' : State) (is : List Input) (ks : List Bool)
+    (hl : ks.length = is.length) (hs : Sim st st') (hd : DropsOk G cfg st is ks) :
+    (run G cfg st' (pick ks is)).2 = pick ks (run G cfg st is).2 :=
+  garbage_removal G cfg st st' is ks hl hs hd
+
+/-- the inputs `C16_rejected_is_noop` speaks about satisfy the condition of `DropsOk` -/
+theorem C16_rejected_drops_ok (G : GenLayer) (cfg : Config) (st : State) (i : Input)
+    (hk : i.combined = true ∨ G.isFast i.pgn ≠ .fast)
+    (hr : (step G cfg st i).2 = .raised ∨ (step G cfg st i).2 = .none)
+    (hnc : ∀ m, G.decode i.pgn (leNat i.data) = some (.ok m) → m.pgn ≠ isoClaimPgn) :
+    ((step G cfg st i).2 = .raised ∨ (step G cfg st i).2 = .none) ∧
+      (step G cfg st i).1.table = st.table ∧ (step G cfg st i).1.sources = st.sources :=
+  ⟨hr, C16_rejected_is_noop G cfg st i hk hr hnc⟩
+
+/-- **Decoding the same history twice gives the same results**, whatever was written to the dump in between -/
+theorem C16_replay (G : GenLayer) (cfg : Config) (st st' : State) (is : List Input) (hs : Sim st st') :
+    (run G cfg st is).2 = (run G cfg st' is).2 :=
+  run_sim G cfg st st' is hs
+
+/-- non-vacuity of the mask -/
+example : pick [true, false, true] [1, 2, 3] = [1, 3] := by decide
+
+/-- a small generated layer: PGN 1 is single-frame and its decoder raises; nothing else is known -/
+def exG : GenLayer := { isFast := fun p => if p = 1 then .single else .unknown, decode := fun _ _ => some .raised }
+def exCfg : Config := {
+  excludeNums := [], excludeIds := [], includeNums := [], includeIds := [], excludeManu := [], includeManu := [],
+  units := [], dumpOn := false, dumpNums := [], dumpIds := [], buildMap := false, isoClaimFilter := false }
+def exIn (pgn : Nat) : Input := { pgn := pgn, prio := 0, src := 0, dst := 255, data := [], combined := false, inWindow := false }
+
+/-- non-vacuity of `DropsOk`: the middle input (rejected: its decoder raises) may be dropped -/
+theorem exDropsOk : DropsOk exG exCfg {} [exIn 2, exIn 1, exIn 2] [true, false, true] :=
+  ⟨fun h => Bool.noConfusion h, fun _ => ⟨Or.inl rfl, rfl, rfl⟩, fun h => Bool.noConfusion h, trivial⟩
+
+/-- … and `C16_garbage_removal` applies to it: without the rejected input, started with some other dump log, the same two results -/
+example (d : List OutMsg) : (run exG exCfg { dump := d } [exIn 2, exIn 2]).2 = [.none, .none] :=
+  C16_garbage_removal exG exCfg {} { dump := d } [exIn 2, exIn 1, exIn 2] [true, false, true] rfl ⟨rfl, rfl⟩ exDropsOk
+
+example : (run exG exCfg {} [exIn 2, exIn 1, exIn 2]).2 = [.none, .raised, .none] := rfl
+
 end N2k.Dec
